@@ -37,7 +37,8 @@ PROBES = {
     "C02": [("C02_l", "quick", "tile_fits([a, b], TOAST, parallel=1|2): every tile above the start level is the 2x2 reduction of its children", 600),
             ("C02_m", "quick", "toasty cascade --format FMT in a directory holding npy and png tiles: parents of the requested format", 600),
             ("C02_n", "quick", 'toasty cascade --format F -j 1|2 in a directory holding png, npy and fits base layers', 600),
-            ("C02_o", "quick", 'cascade_images with a tile filter, parallel 1|2, cli_progress on and off, npy / fits / png: parents exist and equal the reduction', 900)],
+            ("C02_o", "quick", 'cascade_images with a tile filter, parallel 1|2, cli_progress on and off, npy / fits / png: parents exist and equal the reduction', 900),
+            ("C02_p", "quick", 'one process: toasty tile-study --black-to-transparent on image A, then toasty cascade on an unrelated opaque PNG pyramid B with black pixels', 600)],
     "C03": [("C03_l", "quick", "toasty transform u8-to-rgb --outdir, -j 1 vs -j 3: the same tiles are produced", 600),
             ("C03_m", "quick", "tile_fits([a, b], TAN) on images without a common grid, parallel 1 vs 3: returns, same pyramid", 900),
             ("C03_n", "quick", 'toasty transform fx3-to-rgb in place and with --outdir, -j 1|3: every tile transformed exactly once', 600),
@@ -101,7 +102,8 @@ PROBES = {
     "C18": [("C18_l", "quick", "pipeline publish dying inside the index.wtml transfer, then refresh", 600),
             ("C18_m", "quick", "pipeline publish failing at each transfer, four listing orders, then refresh and re-publish", 600),
             ("C18_n", "quick", 'the pipeline command line with a failure injected at 120 points of publish, then the re-run: store vs approved files vs refresh', 900),
-            ("C18_o", "quick", 'publish fails, the image is re-processed and re-approved, publish re-run: it completes', 600)],
+            ("C18_o", "quick", 'publish fails, the image is re-processed and re-approved, publish re-run: it completes', 600),
+            ("C18_p", "quick", 'publish fails part-way, then pipeline ignore-rejects (empty rejects/), refresh from a fresh working directory, publish re-run', 600)],
     "C19": [("C19_l", "quick", "serial walk / visit_leaves / toasty cascade -j 1 with the progress bar on: an I/O error on a tile is reported", 600),
             ("C19_m", "quick", "tile_fits(TOAST, parallel=1) with a failing merger raises instead of hanging", 600),
             ("C19_n", "quick", 'SLURM_NPROCS=4 with explicit parallel=1 / -j 1: visit_leaves, walk, toasty cascade, u8_to_rgb report a failing tile', 600),
